@@ -180,7 +180,8 @@ def generate(st):
                 pos.append(value(first=(len(pos) == 0)))
         extra = []
         if (s['varkw'] or 'kws' in chain_types) and g.random() < 0.4:
-            for nm in g.sample(['zz', 'yy', 'k9'] + (['args', 'kw'] if s['varkw'] else []), g.randint(1, 2)):
+            # undeclared keywords, also ones spelled like f's *args / **kw parameters or like a local variable of f
+            for nm in g.sample(['zz', 'yy', 'k9', 'tmp'] + (['args', 'kw'] if s['varkw'] else ['args'] if s['varargs'] else []), g.randint(1, 2)):
                 extra.append([nm, value()])
         return {'pos': [_enc(v) for v in pos], 'kw': [[k, _enc(v)] for k, v in kw], 'extra': [[k, _enc(v)] for k, v in extra]}
 
@@ -254,7 +255,13 @@ def generate(st):
                 lists.append(items)
             ops.append({'op': 'recursion_try', 'value': stack[0]['value'] if stack[0]['t'] == 'try' else stack[1]['value'], 'decs': stack, 'lists': lists})
         elif r < 0.83 and cfg.get('argpool') and cfg['containers']:
-            ops.append({'op': 'edit_arg', 'k': g.randrange(3), 'v': g.choice([1, 2, 5, 's'])})
+            k_ = g.randrange(3)
+            prev_ = [o_ for o_ in ops if o_['op'] == 'call' and any(isinstance(v_, dict) and v_.get('ref') == k_ for v_ in list(o_['pos']) + [v2 for _, v2 in o_['kw']])]
+            if prev_ and g.random() < 0.6:
+                ops.append(_copy.deepcopy(prev_[-1]))      # the same call right before ...
+            ops.append({'op': 'edit_arg', 'k': k_, 'v': g.choice([1, 2, 5, 's'])})
+            if prev_ and g.random() < 0.8:
+                ops.append(_copy.deepcopy(prev_[-1]))      # ... and right after the caller edited that very argument object
         elif r < 0.86:
             cands = [i for i, (fid, types) in enumerate(chains) if types and types[0] == 'cache']
             if cands:
@@ -297,6 +304,7 @@ def _make_funcs(fid, s, ledger):
     va = 'tuple(args)' if s['varargs'] else '()'
     kwv = '(kworder.append(list(kw)) or tuple(sorted(kw.items(), key=lambda kv: kv[0])))' if s['varkw'] else '()'
     src = ("def f(%s):\n"
+           "    tmp = 0          # a local variable: its name is no parameter\n"
            "    return body(%s, %s, %s)\n"
            "def twin(%s):\n"
            "    return None\n") % (_sig_src(s), collect, va, kwv, _sig_src(s))
@@ -884,6 +892,31 @@ def execute(trace, ctx=None):
                     if gv != getattr(want, fld):
                         raise Violation('argspec', 'getargspec(object%s).%s = %r, f has %r' % ([l['t'] for l in o['chain']], fld, gv, getattr(want, fld)), k)
                 res.probe('argspec-checked')
+                f0_ = funcs[o['fid']][0]
+                if f0_.__defaults__ and k % 2 == 0:
+                    # a second function made from the SAME code with other defaults (closures of one factory, lambdas made in a
+                    # loop are like that); asked about after the first, it must be reported with its own defaults
+                    import types
+                    nd_ = tuple(900 + j_ for j_ in range(len(f0_.__defaults__)))
+                    sib_ = types.FunctionType(f0_.__code__, f0_.__globals__, f0_.__name__, nd_, f0_.__closure__)
+                    for what_, obj_ in (('plain', sib_), ('decorated', kwargs_support(sib_))):
+                        try:
+                            g2_ = getargspec(obj_)
+                            d2_ = g2_['defaults'] if isinstance(g2_, dict) else g2_.defaults
+                        except Exception as e:
+                            raise Violation('argspec', 'getargspec of a %s function sharing its code with another raised %s: %s' % (what_, type(e).__name__, e), k)
+                        if tuple(d2_ or ()) != nd_:
+                            raise Violation('argspec', 'a %s function made from the same code as an earlier one, with defaults %r, is reported with defaults %r' % (what_, nd_, d2_), k)
+                    n_req_ = len(want.args) - len(nd_)
+                    if not want.kwonlyargs:
+                        try:
+                            ca_ = getcallargs(sib_, *list(range(n_req_)))
+                        except Exception as e:
+                            raise Violation('getcallargs', 'getcallargs of a function sharing its code with another raised %s: %s' % (type(e).__name__, e), k)
+                        exp_ = inspect.getcallargs(sib_, *list(range(n_req_)))
+                        if not _deep_same(_norm_callargs(ca_), _norm_callargs(exp_)):
+                            raise Violation('getcallargs', 'getcallargs of a function made from the same code as an earlier one = %r, inspect says %r' % (ca_, exp_), k)
+                    res.probe('two-functions-one-code-object')
         res.steps = len(trace['ops'])
     except Violation as v:
         res.violation = {'cls': v.cls, 'msg': v.msg, 'step': v.step}
